@@ -163,6 +163,20 @@ def check(run, driver):
         so = P._communities_seed_order(G)
         meta.append(("seed", case, [idx[n] for n in so]))
         reqs.append({"op": "seed_order", "comms": [[idx[n] for n in c] for c in comms], "deg": [int(G.degree(n)) for n in nodes], "nodes": list(range(len(nodes)))})
+    # history: the same graph object grown in place between two layouts must be laid out like a fresh graph
+    for it in range(20 if thorough else 6):
+        G = rand_multigraph(rng)
+        seed = int(rng.integers(0, 100)); iters = int(rng.choice([0, 20, 100]))
+        P.optimize_circular_order(G, max_iters=iters, rng=seed)
+        new = "new-node" if isinstance(list(G.nodes())[0], str) else 10**6
+        G.add_node(new); G.add_edge(new, list(G.nodes())[0], lag=2, cmi=0.5, p_value=0.5)
+        fresh = nx.MultiDiGraph(); fresh.add_nodes_from(G.nodes(data=True)); fresh.add_edges_from((a, b, dict(dd)) for a, b, dd in G.edges(data=True))
+        o1 = P.optimize_circular_order(G, max_iters=iters, rng=seed); o2 = P.optimize_circular_order(fresh, max_iters=iters, rng=seed)
+        run.case("history", [it, seed, iters, G.number_of_nodes()], True)
+        if sorted(map(repr, o1)) != sorted(map(repr, G.nodes())) or len(o1) != G.number_of_nodes():
+            run.prop_fail("after the graph grew in place, the layout no longer places every node exactly once (stale state)", {"nodes": list(map(repr, G.nodes())), "order": list(map(repr, o1))}, {"clause": "layout_perm", "history": True})
+        elif list(o1) != list(o2):
+            run.corr_fail("history", {"nodes": list(map(repr, G.nodes()))}, list(map(repr, o2)), list(map(repr, o1)), "layout of a graph object seen before differs from the layout of a fresh equal graph")
     # adversarial community outputs
     for it in range(40 if thorough else 12):
         G = rand_multigraph(rng)
